@@ -10,6 +10,7 @@ import Shutter.Drive.Events
 import Shutter.Drive.TriggerDef
 import Shutter.Drive.Api
 import Shutter.Drive.Signers
+import Shutter.Drive.EpochKG
 
 open Shutter
 
@@ -21,6 +22,7 @@ def dispatch (st : DState) (line : String) : DState × String :=
   | "APP" :: rest =>
     let (a, out) := Drive.App.step st.app rest
     ({ st with app := a }, out)
+  | "KG" :: rest => (st, Drive.EpochKG.step rest)
   | "SG" :: rest => (st, Drive.Signers.step rest)
   | "API" :: rest => (st, Drive.Api.step rest)
   | "TD" :: rest => (st, Drive.TriggerDef.step rest)
